@@ -183,7 +183,9 @@ func (r *run) monitor(events []string, st *scheduler.VerifState, dump string) {
 				r.checkNotDrained(wk, st)
 				t := taskOfWorker[wk]
 				tl := taskLine[t]
-				if t == "" || t == "-" || tl == nil {
+				if r.released {
+					// several calls ran in this segment: the task may have been taken away again by a later one
+				} else if t == "" || t == "-" || tl == nil {
 					r.failf("violation", "C01", "C01.sync_executes_only_assigned", "worker %s was told to execute digest %s but no task is assigned to it", wk, kv["d"])
 				} else if tl["d"] != kv["d"] || tl["st"] != "3" {
 					r.failf("violation", "C01", "C01.sync_executes_only_assigned / C01.completed_never_restarted", "worker %s was told to execute digest %s but its task has digest %s in stage %s", wk, kv["d"], tl["d"], tl["st"])
